@@ -9,7 +9,8 @@ RULE = ("random job DAGs (0-8 tasks quick / 0-14 thorough; chains, diamonds, fan
         "components, GPU tasks, any subset of requested outputs incl. non-sinks) x clusters (1-3 hosts x 1-3 workers, GPU subsets "
         "keeping the job feasible) x adversarial seeded schedules of the abstract executors (any order + batching of events, and "
         "FIFO-per-production order; task bodies publish their outputs one at a time while controller rounds go on); the REAL controller.impl.run is driven in-process through SimBridge; after every controller "
-        "phase (assign/act/plan/flush, notify) the abstraction of the real State and the commands are compared with the Lean model. "
+        "phase (assign/act/plan/flush, notify) the abstraction of the real State (incl. published_outputs, the record from which completion is detected) "
+        "and the commands are compared with the Lean model. "
         "non-trivial = run with >=1 inter-host transfer or >=1 fetch or >=1 purge; distinct by hash of (job, cluster, schedule seed)")
 ASSUMPTIONS = [
     "executors are abstract (SimBridge mirrors Env of Model/Ctrl.lean plus the non-atomic layer Model/CtrlN.lean): a dispatched task starts once its inputs are in its host's store and publishes its outputs in index order, one environment step per output (in a quarter of the runs all at once), with controller rounds, deliveries, transfers and other bodies interleaved; transmit/fetch read the source store; purge is immediate",
@@ -20,7 +21,9 @@ ASSUMPTIONS = [
 
 
 def last_overtook(trace):
-    """did some task's last-output notice reach the controller before the notice of an earlier output of the same task?"""
+    """did some task's last-output notice reach the controller before the notice of an earlier output of the same task?
+    (recorded in the signature of a liveness failure under any-order delivery: the cause of the fixed findings
+    C03/C01-last-output-overtakes; informational, no known finding matches it any more)"""
     seen = set()
     nout = {i: t["nOut"] for i, t in enumerate(trace[0]["tasks"])}
     for x in trace:
